@@ -5,7 +5,9 @@ opts (all optional):
   auto_abs: perform_auto_task_while_absence_time; max_time; res_absence: {resource name: [steps]};
   phases: phases to snapshot (default all four); want_canon: record canonical state at 'updated';
   fault: [step, phase] -> the observer raises InjectedFault there; plain: build with library classes;
-  presim: number of earlier simulate() calls on the same object before the observed one.
+  presim: number of earlier simulate() calls on the same object before the observed one;
+  resume_from: k -> simulate(max_time=k) first, the observed run resumes it (state/log initialisation off);
+  unit_time: passed to simulate(); backward: observe backward_simulate() instead (options due, rev).
 """
 import traceback
 
@@ -68,6 +70,8 @@ def sim_kwargs(opts):
         perform_auto_task_while_absence_time=bool(opts.get("auto_abs", False)),
         max_time=opts.get("max_time", 200),
     )
+    if opts.get("unit_time") is not None:
+        kw["unit_time"] = opts["unit_time"]
     return kw
 
 
@@ -118,6 +122,9 @@ def run(spec, opts=None, model=None, call=None):
         fault=opts.get("fault"),
     )
     try:
+        if opts.get("resume_from") is not None:
+            # the observed run continues a run that was stopped at step resume_from (state and logs kept)
+            ex.m.project.simulate(**dict(sim_kwargs(opts), max_time=opts["resume_from"]))
         for _ in range(int(opts.get("presim") or 0)):
             # earlier, unobserved runs on the same object (the observed run must not be influenced by them)
             ex.m.project.simulate(**sim_kwargs(dict(opts, absence=opts.get("presim_absence", []))))
@@ -129,7 +136,14 @@ def run(spec, opts=None, model=None, call=None):
         if call is not None:
             call(ex.m.project)
         else:
-            ex.m.project.simulate(**sim_kwargs(opts))
+            kw = sim_kwargs(opts)
+            if opts.get("resume_from") is not None:
+                kw.update(initialize_state_info=False, initialize_log_info=False)
+            if opts.get("backward"):
+                # the observed run is the inner run of backward_simulate (dependencies reversed while it runs)
+                ex.m.project.backward_simulate(considering_due_time_of_tail_tasks=bool(opts.get("due")), reverse_log_information=bool(opts.get("rev", True)), **kw)
+            else:
+                ex.m.project.simulate(**kw)
     except Exception as e:
         ex.error = "%s: %s" % (type(e).__name__, e)
         tb = traceback.extract_tb(e.__traceback__)
